@@ -1207,3 +1207,26 @@ T('lock-cannot-happen-assertion-in-release', ['C12', 'C02'],
   (F, "        self._decrement_lock_counter()\n        levels = 1", "        if self._lock_counter < 0:\n            raise AssertionError('lock counter underflow')\n        self._decrement_lock_counter()\n        levels = 1"))
 T('bat-asserts-and-narrowing', ['C04', 'C09', 'C10', 'C11'],
   (A, "        args = [t[:2] for t in tasks]\n", "        assert tasks, 'never called with an empty batch'\n        if self._semaphore is None:\n            raise AssertionError('semaphore not initialised')\n        args = [t[:2] for t in tasks]\n"))
+
+# --- rules from the second half of seeded wave 9 ------------------------------------------------------
+B('cache-decorator-returns-func-early', ['C14'], ['C14-R5'],
+  (A, "    # Avoid type narrowing issues related to:\n    # https://github.com/python/mypy/issues/13123\n    _cache: _CacheMap",
+      "    if getattr(func, '_is_cached', False):\n        return func\n    # Avoid type narrowing issues related to:\n    # https://github.com/python/mypy/issues/13123\n    _cache: _CacheMap"))
+B('split-class-predicate-hijacked', ['C18'], ['C18-R2'],
+  (I, "    if callable(condition):\n        iterable, ci = tee(iterable)", "    if isinstance(condition, type):\n        condition = partial(_isinst, condition)\n    if callable(condition):\n        iterable, ci = tee(iterable)"),
+  (I, "def exhaust(", "def _isinst(types: Any, value: Any) -> bool:\n    return isinstance(value, types)\n\n\ndef exhaust("),
+  (I, "from itertools import tee, compress\n", "from functools import partial\nfrom itertools import tee, compress\n"))
+B('exhaust-swallows-typeerror', ['C18'], ['C18-R5'],
+  (I, "    deque(iterable, maxlen=0)\n", "    try:\n        deque(iterable, maxlen=0)\n    except TypeError as exc:\n        if 'is not iterable' not in str(exc):\n            raise\n"))
+T('exhaust-reraises-with-note', ['C18'],
+  (I, "    deque(iterable, maxlen=0)\n", "    try:\n        deque(iterable, maxlen=0)\n    except TypeError:\n        raise\n"))
+B('parse-none-result-discarded', ['C19'], ['C19-R4'],
+  (P, "            try:\n                return parse(x)\n            except:  # noqa\n                pass\n", "            try:\n                parsed = parse(x)\n            except:  # noqa\n                pass\n            else:\n                if parsed is not None:\n                    return parsed\n"))
+T('parse-result-through-a-local', ['C19'],
+  (P, "            try:\n                return parse(x)\n            except:  # noqa\n                pass\n", "            try:\n                parsed = parse(x)\n            except:  # noqa\n                pass\n            else:\n                return parsed\n"))
+B('parse-blank-separator-refused', ['C19'], ['C19-R2'],
+  (P, "    def try_parse(x: Any) -> Any:\n", "    if not sep.strip():\n        raise ValueError(f'sep must not be blank: {sep!r}')\n\n    def try_parse(x: Any) -> Any:\n"))
+T('parse-empty-separator-refused', ['C19'],
+  (P, "    def try_parse(x: Any) -> Any:\n", "    if not sep:\n        raise ValueError('sep must not be empty')\n\n    def try_parse(x: Any) -> Any:\n"))
+B('parse-item-normalised-before-split', ['C19'], ['C19-R1'],
+  (P, "        if isinstance(pair, str):\n            try:\n                k, v = pair.split(sep, 1)", "        if isinstance(pair, str):\n            pair = pair.strip()\n            try:\n                k, v = pair.split(sep, 1)"))
